@@ -1,6 +1,6 @@
 (** C04 SPEC: what R7RS prescribes, on Coq's Z.  Used (extracted) as the oracle of the outer
     correspondence and as the right-hand side of the theorems. *)
-From Coq Require Import ZArith List.
+From Coq Require Import ZArith List Bool.
 Import ListNotations.
 Local Open Scope Z_scope.
 
@@ -44,5 +44,67 @@ Definition spec1 (op : nat) (a : Z) : res :=
   | 4%nat => Bool (Z.even a)
   | 5%nat => Bool (Z.odd a)
   | 6%nat => Bool (fits_fixnum a)                                                       (* canonical: fixnum? *)
+  | 7%nat => Val [a]                                            (* (exact (inexact a)) for a = m*2^k, |m| < 2^53 *)
   | _ => Undefined
   end.
+
+(** ** exact rationals: lowest terms, positive denominator (what R7RS's numerator/denominator see) *)
+Definition qnorm (n d : Z) : Z * Z :=
+  let g := Z.gcd n d in
+  let s := if d <? 0 then -1 else 1 in
+  (s * (n / g), s * (d / g)).
+
+Definition qres (n d : Z) : res := if d =? 0 then DivZero else let '(n', d') := qnorm n d in Val [n'; d'].
+
+(** round to even on n/d with d > 0 *)
+Definition qround (n d : Z) : Z :=
+  let q := n / d in let r := n - q * d in
+  if 2 * r <? d then q else if 2 * r >? d then q + 1 else if Z.even q then q else q + 1.
+
+(** operands are arbitrary fractions n1/d1, n2/d2 with non-zero denominators (not necessarily reduced) *)
+Definition specq2 (op : nat) (n1 d1 n2 d2 : Z) : res :=
+  match op with
+  | 0%nat => qres (n1 * d2 + n2 * d1) (d1 * d2)
+  | 1%nat => qres (n1 * d2 - n2 * d1) (d1 * d2)
+  | 2%nat => qres (n1 * n2) (d1 * d2)
+  | 3%nat => qres (n1 * d2) (d1 * n2)                        (* / : DivZero when n2 = 0 *)
+  | 4%nat => let '(a, b) := qnorm n1 d1 in let '(c, d) := qnorm n2 d2 in Bool (a * d <? c * b)
+  | 5%nat => let '(a, b) := qnorm n1 d1 in let '(c, d) := qnorm n2 d2 in Bool (a * d =? c * b)
+  | 6%nat => let '(a, b) := qnorm n1 d1 in let '(c, d) := qnorm n2 d2 in Bool (a * d >? c * b)
+  | 7%nat => let '(a, b) := qnorm n1 d1 in let '(c, d) := qnorm n2 d2 in
+             if a * d <? c * b then Val [c; d] else Val [a; b]             (* max *)
+  | 8%nat => let '(a, b) := qnorm n1 d1 in let '(c, d) := qnorm n2 d2 in
+             if c * b <? a * d then Val [c; d] else Val [a; b]             (* min *)
+  | _ => Undefined
+  end.
+
+Definition specq1 (op : nat) (n1 d1 : Z) : res :=
+  let '(a, b) := qnorm n1 d1 in
+  match op with
+  | 0%nat => Val [a]                                  (* numerator *)
+  | 1%nat => Val [b]                                  (* denominator *)
+  | 2%nat => Val [a / b]                              (* floor *)
+  | 3%nat => Val [- ((- a) / b)]                      (* ceiling *)
+  | 4%nat => Val [qround a b]                         (* round *)
+  | 5%nat => Val [Z.quot a b]                         (* truncate *)
+  | 6%nat => Val [Z.abs a; b]                         (* abs *)
+  | 7%nat => Val [- a; b]                             (* negate *)
+  | 8%nat => if a =? 0 then DivZero else qres b a     (* reciprocal (/ x) *)
+  | 9%nat => Val [a * a; b * b]                       (* square *)
+  | _ => Undefined
+  end.
+
+(** ** positional notation: most significant digit first, sign separately *)
+Fixpoint digits_fuel (fuel : nat) (r z : Z) (acc : list Z) : list Z :=
+  match fuel with
+  | O => acc
+  | S f => if z =? 0 then acc else digits_fuel f r (z / r) (z mod r :: acc)
+  end.
+Definition to_radix (r z : Z) : list Z :=
+  let m := Z.abs z in
+  if m =? 0 then [0] else digits_fuel (S (Z.to_nat (Z.log2 m))) r m [].
+Definition of_radix (r : Z) (ds : list Z) : Z := fold_left (fun acc d => acc * r + d) ds 0.
+
+(** spec of number->string: sign (1 / -1) followed by the digit values *)
+Definition spec_radix (r z : Z) : res :=
+  if orb (r <? 2) (r >? 36) then Undefined else Val ((if z <? 0 then -1 else 1) :: to_radix r z).
